@@ -144,6 +144,22 @@ let fg_invariants k nn (f : fstate) : string list =
         if restarter x && not (special x) && toack <> 0L then err (Printf.sprintf "R2 %d" x))
       ts;
     if List.length (List.filter restarter ts) > 1 then err "R1";
+    (* the invariants of Qs/QsFgLive.v *)
+    if toack = 0L && List.exists member ts && not (List.exists restarter ts) then err "J5";
+    let des = n_ d.desired in
+    for n = 0 to nn - 1 do if n_ (f.ftarget (nat_of_int n)) > des then err "L-des" done;
+    List.iter (fun t ->
+        let tht = th t in
+        (match tht.tpc with PQb4 tg -> if n_ tg > des then err "L-qb4" | _ -> ());
+        (match tht.tret with Some tg -> if n_ tg > des then err "L-ret" | None -> ());
+        (match tht.tpc with PAb3 (_, tg, c) | PQb3 (tg, c) -> if n_ c > des || n_ c >= n_ tg then err "L-cas" | _ -> ());
+        let rec sorted = function a :: (b :: _ as r) -> n_ (f.ftarget a) <= n_ (f.ftarget b) && sorted r | _ -> true in
+        if not (sorted tht.tag.pending) then err "L-sorted";
+        List.iter (fun m -> if n_ (f.ftarget m) > Int64.add ctr 2L then err "L-bound") tht.tag.pending;
+        (match tht.tpc with
+         | PAb2 (_, tg) | PAb3 (_, tg, _) -> List.iter (fun m -> if n_ (f.ftarget m) > n_ tg then err "L-ab") tht.tag.pending
+         | _ -> ()))
+      ts;
     (* K *)
     for n = 0 to nn - 1 do
       let n' = nat_of_int n in
